@@ -165,6 +165,17 @@ pub fn exhaustive_for(e: &Encoded, rng: &mut Rng) -> Vec<PIn> {
     for c in corrupt::structural_faults(e, rng) {
         v.push(from_c(c));
     }
+    // every primitive field replaced by every well-formed substitute field, checksum recomputed
+    let subs = corrupt::substitute_fields();
+    for ti in 0..e.map.tlfs.len() {
+        let t = e.map.tlfs[ti];
+        if t.ty == crate::refm::tlf::RTy::List || t.role == crate::refm::sml::Role::Crc {
+            continue;
+        }
+        for f in &subs {
+            v.push(from_c(corrupt::replace_field(e, ti, f, true)));
+        }
+    }
     v.push(from_c(corrupt::extend(e, &[0x00])));
     v.push(from_c(corrupt::extend(e, &[0x76])));
     v.push(from_c(corrupt::extend(e, &e.bytes[..n.min(7)])));
